@@ -50,7 +50,26 @@ def gen_history(rng, maxlen=6):
         call["omit"] = sorted(k for k in ("mode", "distance", "gop", "scale", "factor", "restricted_chars", "model")
                               if rng.random() < 0.3)
         calls.append(call)
-    return {"model": model, "pairs": pairs, "calls": calls}
+    h = {"model": model, "pairs": pairs, "calls": calls}
+    if rng.random() < 0.4:
+        # un-spaced IPA strings: lingpy segments them itself (ipa2tokens); some carry a DECOMPOSED letter
+        # (base + combining tilde), which must come back exactly as given
+        strings = []
+        for a, b in pairs:
+            sa, sb = "".join(a), "".join(b)
+            if rng.random() < 0.5:
+                sa = sa.replace("a", "a\u0303", 1).replace("o", "o\u0308", 1)
+            if rng.random() < 0.3:
+                sb = sb.replace("e", "e\u0301", 1).replace("a", "a\u0303", 1)
+            strings.append((sa, sb))
+        h["strings"] = strings
+    return h
+
+
+def _seqs(h):
+    if h.get("strings"):
+        return [tuple(p) for p in h["strings"]]
+    return [(" ".join(a), " ".join(b)) for a, b in h["pairs"]]
 
 
 DOC_DEFAULTS = {"gop": -1, "scale": 0.5, "mode": "global", "factor": 0.3, "restricted_chars": "T_",
@@ -69,7 +88,7 @@ def glue_check(pw, h, kw):
     from lingpy.algorithm.cython import _calign as calign
     eff = dict(DOC_DEFAULTS)
     eff.update(kw)
-    ref = Pairwise([(" ".join(a), " ".join(b)) for a, b in h["pairs"]])
+    ref = Pairwise(_seqs(h))
     ref._set_model(model=eff["model"])
     exp = calign.align_pairs(copy.deepcopy(ref.classes), copy.deepcopy(ref.weights), copy.deepcopy(ref.prostrings),
                              eff["gop"], eff["scale"], eff["factor"], ref.scoredict, eff["mode"],
@@ -88,8 +107,17 @@ def glue_check(pw, h, kw):
 def run_history(h):
     """Returns a list of cases (one per call and pair)."""
     from lingpy.align.pairwise import Pairwise
-    pw = Pairwise([(" ".join(a), " ".join(b)) for a, b in h["pairs"]])
+    pw = Pairwise(_seqs(h))
     cases = []
+    pairs = h["pairs"]
+    if h.get("strings"):
+        # the segmentation is lingpy's; it must spell the input string exactly (C01 at the IPA-string level)
+        pairs = []
+        for (sa, sb), (ta, tb) in zip(h["strings"], pw.tokens):
+            if "".join(ta) != sa or "".join(tb) != sb:
+                raise AssertionError("Pairwise segments %r / %r as %r / %r: the tokens do not spell the input"
+                                     % (sa, sb, ta, tb))
+            pairs.append((list(ta), list(tb)))
     for ci, call in enumerate(h["calls"]):
         kw = {"model": h["model"], "mode": call["mode"], "distance": call["distance"], "gop": call["gop"],
               "scale": call["scale"]}
@@ -105,7 +133,7 @@ def run_history(h):
         if glue:
             GLUE_ERRORS.append({"history": h, "call": ci, "passed_keywords": {k: v for k, v in kw.items()},
                                 "scale_is_1": kw.get("scale", 0.5) == 1, **glue})
-        for pi, (a, b) in enumerate(h["pairs"]):
+        for pi, (a, b) in enumerate(pairs):
             almA, almB, _ = pw.alignments[pi]
             cases.append({"history": h, "call": ci, "pair": pi, "tokA": list(a), "tokB": list(b),
                           "local": mode == "local", "almA": list(almA), "almB": list(almB),
@@ -195,4 +223,6 @@ def shrink(case):
         for drop in range(len(h["pairs"])):
             if drop != case["pair"]:
                 hh = dict(h, pairs=[p for i, p in enumerate(h["pairs"]) if i != drop])
+                if h.get("strings"):
+                    hh["strings"] = [p for i, p in enumerate(h["strings"]) if i != drop]
                 yield dict(case, history=hh, pair=case["pair"] - (1 if drop < case["pair"] else 0))
